@@ -1155,3 +1155,22 @@ def main(ctx):
 
     call_sequences(ctx, "call-sequences", seq_pool, SEQ_CALLS, seq_run, lambda: [_su], depth=ctx.pick(3, 3),
                    mutations=[("x",), ("w",)], mutate=seq_mut, nodedup_depth=3)
+
+    # ------------------------------------------------ long query arrays through interplin (mc/longarr.py)
+    from mc.longarr import tiled_elementwise, PERIOD
+    TX = np.array([0.0, 1.0, 2.5, 3.0, 7.0, 7.5])
+    TV = np.array([1.0, -2.0, 0.5, 0.5, 10.0, -4.0])
+
+    def u_base():
+        u = np.linspace(-1.0, 8.5, PERIOD)
+        u[:6] = TX
+        return (u,)
+
+    def x_base():
+        return (np.cumsum(np.r_[0.0, 0.5 + (np.arange(PERIOD - 1) % 7) * 0.25]),)
+
+    ispecs = {"interplin(long u)": (u_base, (lambda u: stat.interplin(TV, TX, u))),
+              # a long TABLE: node j of the tiled table is not periodic, so only the query at the nodes themselves is used:
+              # interpolating a table at its own nodes returns the node values
+              }
+    tiled_elementwise(ctx, "long-arrays", ispecs, ctx.pick((100000, 1000000), (65536, 100000, 1000000, 1048576, 2000000)))
